@@ -199,14 +199,14 @@ def c14_classify(line, res):
 # a SEQUENCE of exchanges of one upstream across a server outage (harness/cmd/implrun/c14b.go):
 #   <id> tr=<udp|tcp|tcpp|tls|tlsp|doh|doq|sudp|stcpp|stcp|sdoq> warm=<k> down=<refuse|hsfail|rwfail|rwboth>
 #        conc=<n> reps=<r> dl=<ms> after=<m> adl=<ms>
-def _og(n, tr, warm, down, conc, reps, dl, after, adl=1500):
+def _og(n, tr, warm, down, conc, reps, dl, after, adl=2500):
     return "o%d tr=%s warm=%d down=%s conc=%d reps=%d dl=%d after=%d adl=%d" % (n, tr, warm, down, conc, reps, dl, after, adl)
 
 
 def c14_outage_gen(rng, tier):
     out = []
 
-    def add(tr, warm, down, conc, reps=1, after=None, adl=1500):
+    def add(tr, warm, down, conc, reps=1, after=None, adl=2500):
         out.append(_og(len(out), tr, warm, down, conc, reps, rng.choice([400, 500, 600]),
                        rng.choice([2, 3, 4]) if after is None else after, adl))
 
@@ -216,7 +216,7 @@ def c14_outage_gen(rng, tier):
         for tr in ("udp", "tcp", "tcpp", "tls", "tlsp", "doh", "doq"):
             # a quic:// upstream dials from an unconnected socket: a closed port is silence, the dial stays in flight
             # and completes (by retransmission) once the server is back
-            adl = 4000 if tr == "doq" else 1500
+            adl = 4000 if tr == "doq" else 2500
             add(tr, 0, "refuse", 1, adl=adl)
             add(tr, 1, "refuse", rng.choice([2, 4, 8]), adl=adl)
             if tr != "udp":
